@@ -13,13 +13,13 @@ func main() {
 	c := ev.Main(map[string]string{"C05": "exploration", "C14": "exploration", "C15": "exploration", "C19": "exploration"})
 	switch c.Prop {
 	case "C05":
-		checkC05(c)
+		c.Isolated(func() { checkC05(c) }) // child process: an unrecoverable crash is a violation, not a dead check
 	case "C14":
-		checkC14(c)
+		c.Isolated(func() { checkC14(c) }) // child process: an unrecoverable crash is a violation, not a dead check
 	case "C15":
-		checkC15(c)
+		c.Isolated(func() { checkC15(c) }) // child process: an unrecoverable crash is a violation, not a dead check
 	case "C19":
-		checkC19(c)
+		c.Isolated(func() { checkC19(c) }) // child process: an unrecoverable crash is a violation, not a dead check
 	}
 	os.Exit(c.Finish())
 }
